@@ -6,13 +6,13 @@ props = [json.loads(l) for l in open(os.path.join(V, "properties.jsonl"))]
 WHAT = {
  "C01": ("codec (RFC layout, both round trips, per-type domain/rejection)", "C01"),
  "C02": ("message codec, class dispatch (kernel-checked tables), AVP search incl. cache transparency", "C02"),
- "C03": ("attribute-definition tables (kernel-checked per regeneration) and the typed generate/assign model", "C03"),
+ "C03": ("attribute-definition tables (kernel-checked per regeneration) and the typed generate/assign model: whole-object round trip (generate, encode, decode, assign) for object trees of any nesting depth", "C03"),
  "C04": ("decoder totality, progress, linear AVP count, error-kind closure", "C04"),
  "C05": ("framing loop: chunking invariance (any frames, any cuts), progress, no silent stall", "C05"),
  "C06": ("capabilities-exchange gate, CER outcome, CE timeout on the node state machine model", "C06"),
  "C07": ("node model: no answer in reaction to an answer, answers mirror requests", "C07"),
  "C08": ("node model: 5005/3003 error rules; table obligation on required definitions", "C08"),
- "C09": ("node model: answer routing to the requesting connection", "C09"),
+ "C09": ("node model: answer routing to the requesting connection; racing submissions for one request (lookup/removal shape extracted from the source): at most one gets through under every schedule", "C09"),
  "C10": ("node model: request routing to eligible ready peers, id assignment, answer correlation", "C10"),
  "C11": ("watchdog clauses of the timer check for all clock and timeout values", "C11"),
  "C12": ("reconnect policy iff-theorem, DPR handling", "C12"),
@@ -20,7 +20,7 @@ WHAT = {
  "C14": ("node + threading-application model: no worker dies, every slot accounted for, consumers alive — for every sequence of operations (faults, handler outcomes, consumer/handler schedules)", "C14"),
  "C15": ("write path as an interleaving system of queueing threads, writer and I/O loop (program extracted from the running code): accepted bytes are always a prefix of, finally equal to, the FIFO concatenation, for every schedule, partial write and write error", "C15"),
  "C16": ("identifier generators: never zero, wrap to 1, distinct within the period, start-value and session-id format laws; for the line skeleton extracted from the source, distinctness under every schedule of any number of threads", "C16"),
- "C17": ("retransmission window: reject iff answered-within-window and T", "C17"),
+ "C17": ("retransmission window: reject iff answered-within-window and T; the window is exactly the last rq answered ids for every sequence of answers", "C17"),
  "C18": ("shutdown clauses on the serialised node model", "C18"),
  "C19": ("retained-state bounds at quiescence", "C19"),
  "C20": ("answer class pairing (kernel-checked) and header law", "C20"),
@@ -30,7 +30,9 @@ PARTIAL = {"C14": "OS-thread liveness and join timing are runtime behaviour: the
            "C16": "interleavings at source-line granularity of the extracted skeleton; bytecode-level interleavings inside one line are not modelled",
            "C18": "stop() racing the I/O thread on node.connections and join timeouts are schedule/runtime behaviour; stop is modelled as serialised events",
            "C10": "the blocking Event.wait and the timeout/late-answer race are modelled as the two atomic orders",
-           "C04": "wall-clock linearity is measured as supporting evidence only"}
+           "C04": "wall-clock linearity is measured as supporting evidence only",
+           "C09": "the serialised node model does not interleave threads; the racing-submissions part models route_answer as two shared-state steps (lookup, removal); equal hop-by-hop ids on two connections are a recorded finding",
+           "C03": "premise of the round-trip theorem: generated AVPs fit the 24-bit length field; objects are compared attribute by attribute (the storage order of a Python __dict__ is not modelled)"}
 built = sorted(p["id"] for p in props if os.path.exists(os.path.join(V, "harness", p["id"].lower() + ".py")))
 checks = []
 for pid in built:
